@@ -320,9 +320,11 @@ where
                 .collect()
         };
         if let Some(p) = peer.as_any().downcast_ref::<Self>() {
-            let (l, r) = match (self.t.serialise_page_ranges(), p.t.serialise_page_ranges()) {
-                (Some(l), Some(r)) => (l, r),
-                _ => return DiffOut::NotSerialisable,
+            let sers = catch_unwind(AssertUnwindSafe(|| (self.t.serialise_page_ranges(), p.t.serialise_page_ranges())));
+            let (l, r) = match sers {
+                Ok((Some(l), Some(r))) => (l, r),
+                Ok(_) => return DiffOut::NotSerialisable,
+                Err(_) => return DiffOut::Panic,
             };
             let res = match catch_unwind(AssertUnwindSafe(|| own(diff(l.clone(), r.clone())))) {
                 Ok(v) => v,
@@ -560,6 +562,8 @@ macro_rules! dispatch_n {
             21 => $f::<21>($($a),*), 22 => $f::<22>($($a),*), 23 => $f::<23>($($a),*), 24 => $f::<24>($($a),*),
             25 => $f::<25>($($a),*), 26 => $f::<26>($($a),*), 27 => $f::<27>($($a),*), 28 => $f::<28>($($a),*),
             29 => $f::<29>($($a),*), 30 => $f::<30>($($a),*), 31 => $f::<31>($($a),*), 32 => $f::<32>($($a),*),
+            // beyond the widest digest the crate's own tests use: levels 65..=254
+            33 => $f::<33>($($a),*), 48 => $f::<48>($($a),*), 64 => $f::<64>($($a),*), 127 => $f::<127>($($a),*),
             _ => Err(format!("unsupported digest width {}", $n)),
         }
     };
